@@ -22,7 +22,7 @@ ASSUMPTIONS = ['closed feature intervals [start,end]; a range query [a,b] with a
                'strand convention for FeatureAnnotatedMolecule as documented (None unstranded, False same strand as R1, True other strand); SingleEndTranscriptFragment only checked unstranded']
 MIN_NONTRIVIAL = {'quick': 3000, 'thorough': 1000000}
 REQUIRED_MONITORS = ['ret:findFeaturesAt', 'ret:findFeaturesBetween', 'ret:findFeaturesAtPysamAlign0', 'ret:findFeaturesAtPysamAlign1',
-                     'ret:molecule.annotate0', 'ret:molecule.annotate1', 'ret:fragment.annotate', 'history:second_round_queries']
+                     'ret:molecule.annotate0', 'ret:molecule.annotate1', 'ret:fragment.annotate', 'history:second_round_queries', 'universe:near_or_beyond_2^31']
 
 
 def gen_cases(tier, seed):
@@ -75,6 +75,9 @@ def run_case(case):
     r = rng(case['seed'], 'C16', case['i'])
     dense = r.random() < 0.7
     U = 60 if dense else 5000
+    # genome coordinates are not small numbers: some histories live just below 2^31 or beyond it (32 bit arithmetic in an index would wrap)
+    big = r.choice([0, 0, 0, 0, 0, 2 ** 31 - 6000, 3 * 10 ** 9])
+    acc.count('universe:near_or_beyond_2^31', 1 if big else 0)
     contigs = ['c1', 'c2', 'c3'][:r.randint(1, 3)]
     header = pysam.AlignmentHeader.from_dict({'HD': {'VN': '1.6'}, 'SQ': [{'SN': c, 'LN': 100000} for c in contigs + ['unseen']]})
     fc = FeatureContainer()
@@ -115,6 +118,8 @@ def run_case(case):
                 else:
                     s = r.randint(0, U)
                     e = min(U, s + r.choice([0, 1, 2, 5, 10, r.randint(0, U)]))
+                if not (mode < 0.5 and mode >= 0.3 and feats.get(c)):
+                    s, e = s + big, e + big      # (nested features are drawn inside an existing, already shifted one)
                 tup = (s, e, f'f{next(uid)}', r.choice(['+', '-', '+', '-', None]), f'id{next(uid)}')
             fc.addFeature(c, tup[0], tup[1], tup[2], strand=tup[3], data=tup[4])
             feats.setdefault(c, set()).add(tup)
@@ -123,6 +128,7 @@ def run_case(case):
         # ---- point queries
         pts = list(range(-3, U + 4)) if dense else sorted(set(
             [r.randint(-3, U + 3) for _ in range(40)] + [x + d for f in list(feats.get(contigs[0], ()))[:30] for x in f[:2] for d in (-1, 0, 1)]))
+        pts = [x + big for x in pts] if dense else sorted(set([x + big for x in pts if x < big] + [x for x in pts if x >= big]))
         qs = [(c, x, st) for c in contigs + ['unseen'] for x in (pts if c == contigs[0] else r.sample(pts, min(25, len(pts)))) for st in (None, '+', '-')]
         if not dense:
             qs = r.sample(qs, min(len(qs), 300))
@@ -143,7 +149,7 @@ def run_case(case):
         rq = []
         for _ in range(120):
             c = r.choice(contigs)
-            a = r.randint(-3, U + 3)
+            a = r.randint(-3, U + 3) + big
             b = a + r.choice([0, 1, 2, 5, r.randint(0, U)])
             rq.append((c, a, b, r.choice([None, '+', '-'])))
         for (c, a, b, st) in earlier_range_queries + rq:
@@ -157,12 +163,12 @@ def run_case(case):
                 acc.sigs.add(f"{case['i']}/{rd}/r/{c}/{a}/{b}/{st}")
         earlier_range_queries = r.sample(rq, 40)
         # ---- reads
-        for j in range(25):
+        for j in range(25 if big < 2 ** 31 else 0):     # an alignment position is a 32 bit number
             c = r.choice(contigs)
             a = pysam.AlignedSegment(header)
             a.query_name = f'read{j}'
             a.reference_id = contigs.index(c)
-            a.reference_start = r.randint(0, U)
+            a.reference_start = r.randint(0, U) + big
             a.cigarstring = random_cigar(r, 8 if dense else 200)
             ql = a.infer_query_length()
             a.query_sequence = 'A' * ql
